@@ -409,3 +409,55 @@ pub fn arb_int() -> BoxedStrategy<I> {
 pub fn big_pow10(k: u32) -> Big {
     Big::pow10(k)
 }
+
+#[derive(Clone, Copy, Debug, Hash, PartialEq, Eq, Serialize, Deserialize)]
+pub enum Rhs {
+    Dec(D),
+    /// integer on the right: x op i
+    IntR(I),
+    /// integer on the left: i op x
+    IntL(I),
+}
+
+
+#[macro_export]
+macro_rules! forms {
+    // all operand forms of a binary trait method for operands a, b
+    ($tr:ident :: $m:ident, $wrap:ident, $a:expr, $b:expr) => {{
+        let a = $a;
+        let b = $b;
+        vec![
+            ("a op b", $wrap(|| $tr::$m(a, b))),
+            ("&a op b", $wrap(|| $tr::$m(&a, b))),
+            ("a op &b", $wrap(|| $tr::$m(a, &b))),
+            ("&a op &b", $wrap(|| $tr::$m(&a, &b))),
+        ]
+    }};
+}
+
+#[macro_export]
+macro_rules! assign_forms {
+    ($tr:ident :: $m:ident, $a:expr, $b:expr) => {{
+        let a: Decimal = $a;
+        let b = $b;
+        vec![
+            (
+                "a op= b",
+                $crate::common::op(|| {
+                    let mut t = a;
+                    $tr::$m(&mut t, b);
+                    t
+                }),
+            ),
+            (
+                "a op= &b",
+                $crate::common::op(|| {
+                    let mut t = a;
+                    $tr::$m(&mut t, &b);
+                    t
+                }),
+            ),
+        ]
+    }};
+}
+
